@@ -450,7 +450,10 @@ func schedRunOnce(t *testing.T, p *SchedProgram, prefix []int) (res schedExecRes
 		defer close(done)
 		defer func() {
 			if e := recover(); e != nil {
-				res.inconclusive = fmt.Sprintf("bubble panic: %v", e)
+				if res.inconclusive != "" {
+					res.inconclusive += "; "
+				}
+				res.inconclusive += fmt.Sprintf("bubble panic: %v", e)
 			}
 		}()
 		synctest.Test(t, func(t *testing.T) {
@@ -524,6 +527,8 @@ func ExploreSchedules(t *testing.T, r *Run, p *SchedProgram) SchedResult {
 				x := schedRunOnce(t, p, req.Choices)
 				if x.err != nil {
 					report(req.Choices, x)
+				} else if x.inconclusive != "" {
+					fmt.Printf("INCONCLUSIVE replay of %s: %s\n", p.Name, x.inconclusive)
 				}
 				out.Executions = 1
 			}
